@@ -115,7 +115,10 @@ def run(ctx):
             ctx.ob("C14.R2", fi, ok, "value branch reads back exactly the bytes just built, reports their offsets/length and ends after them", key="value branch result")
             ctx.ob("C14.R2", fi, not spoiled and set(kw) == {"data", "value", "offset1", "offset2", "length"} and p.retval[0] == "new" and p.retval[3] in ((o,), ()),
                    "value branch: the freshly measured data/value/offset1/offset2/length are the last word in the result (entries of the supplied object, e.g. stale offsets of an earlier parse, never override them)", key="value branch fresh fields win")
-            ctx.ob("C14.R2", fi, kw.get("value") == N.mk_ite(N.mk_cmp("is", sub["res"], N.NONE), val, sub["res"]), "value is the build result (or the supplied value when the builder returns None)", key="value branch value")
+            isn = N.mk_cmp("is", sub["res"], N.NONE)
+            d = decided(p, isn)
+            okv = kw.get("value") == N.mk_ite(isn, val, sub["res"]) or (d is True and kw.get("value") == val) or (d is False and kw.get("value") == sub["res"])
+            ctx.ob("C14.R2", fi, okv, "value is the build result (or the supplied value when the builder returns None)", key="value branch value")
         elif no_data and no_val:
             seen.add("neither")
             ctx.ob("C14.R2", fi, p.outcome[0] == "raise" and p.outcome[1].get("cls") == "RawCopyError" and not p.of("WRITE", "SUB"), "neither key: RawCopyError before anything is written", key="neither")
